@@ -695,15 +695,22 @@ func init() {
 						}
 						continue
 					}
-					var checkBack func(e ssa.Value, depth int)
-					checkBack = func(e ssa.Value, depth int) {
+					var checkBack func(e ssa.Value, from *ssa.BasicBlock, depth int)
+					checkBack = func(e ssa.Value, from *ssa.BasicBlock, depth int) {
+						if e == ssa.Value(counter) {
+							// unchanged: only where the segment contributes nothing (the all-dropped fast path)
+							if !allDroppedGuardDominates(from) {
+								threadOK, threadWhy = false, "the counter reaching the next segment is unchanged on a path that is not the all-documents-dropped shortcut"
+							}
+							return
+						}
 						switch x := e.(type) {
 						case *ssa.Phi:
 							if !fillLoop[x.Block()] {
 								// the join of the two ways of filling the table (if/else instead of `continue`)
 								if depth < 4 && !isLoopHeader(x.Block()) && body[x.Block()] {
-									for _, pe := range x.Edges {
-										checkBack(pe, depth+1)
+									for j, pe := range x.Edges {
+										checkBack(pe, x.Block().Preds[j], depth+1)
 									}
 									return
 								}
@@ -733,7 +740,7 @@ func init() {
 							threadOK, threadWhy = false, "the counter reaching the next segment is "+e.String()
 						}
 					}
-					checkBack(e, 0)
+					checkBack(e, pr, 0)
 				}
 			}
 			paths, complete := iterPaths(segHdr, segHdr.Succs[0], body, 4000)
@@ -754,6 +761,18 @@ func init() {
 						n += a
 						filledBefore = seenFill
 					}
+					if a := allDroppedAppendsIn(c, fn, b); a > 0 {
+						// a table in which every document is marked dropped, built by a helper: right exactly
+						// when the drops bitmap of the segment names all its documents
+						n += a
+						filledBefore = pathTakesAllDroppedEdge(p.blocks)
+						if !filledBefore {
+							bad = "an all-dropped table is appended for a segment on a path that is not guarded by drops.GetCardinality() == seg.footer.numDocs (blocks " + blockList(p.blocks) + ")"
+						}
+					}
+				}
+				if bad != "" && n == 1 && !filledBefore {
+					continue
 				}
 				if n != 1 {
 					bad = fmt.Sprintf("a path through one segment iteration appends the table %d times (blocks %s)", n, blockList(p.blocks))
@@ -810,6 +829,11 @@ func init() {
 			}
 			for _, b := range blocks {
 				for _, ins := range b.Instrs {
+					if call, ok := ins.(*ssa.Call); ok && isAllDroppedMaker(c, call.Call.StaticCallee()) && len(call.Call.Args) == 1 {
+						if _, ok := numDocsOf(stripConv(call.Call.Args[0])); ok {
+							found = true
+						}
+					}
 					mk, ok := ins.(*ssa.MakeSlice)
 					if !ok {
 						continue
@@ -1419,4 +1443,146 @@ func returnsAdvanced(fn *ssa.Function, p *ssa.Parameter) string {
 		}
 	}
 	return ""
+}
+
+// isAllDroppedMaker: fn(n) returns make([]uint64, n) whose every element a
+// whole-range loop sets to the dropped sentinel.
+func isAllDroppedMaker(c *Ctx, fn *ssa.Function) bool {
+	if fn == nil || !c.inRoot(fn) || fn.Blocks == nil || len(fn.Params) != 1 || fn.Signature.Results().Len() != 1 {
+		return false
+	}
+	var mk *ssa.MakeSlice
+	for _, b := range fn.Blocks {
+		for _, ins := range b.Instrs {
+			if m, ok := ins.(*ssa.MakeSlice); ok {
+				if mk != nil || stripConv(m.Len) != ssa.Value(fn.Params[0]) {
+					return false
+				}
+				mk = m
+			}
+		}
+	}
+	if mk == nil || mk.Referrers() == nil {
+		return false
+	}
+	nst := 0
+	loopOK := false
+	for _, ref := range *mk.Referrers() {
+		ia, ok := ref.(*ssa.IndexAddr)
+		if !ok || ia.Referrers() == nil {
+			continue
+		}
+		for _, r2 := range *ia.Referrers() {
+			st, ok := r2.(*ssa.Store)
+			if !ok {
+				continue
+			}
+			nst++
+			if !isDocDroppedConst(st.Val) {
+				return false
+			}
+			for h := st.Block(); h != nil; h = h.Idom() {
+				if !isLoopHeader(h) || !loopBody(h)[st.Block()] || !inductionFromZero(ia.Index, h) {
+					continue
+				}
+				if ifi, ok := h.Instrs[len(h.Instrs)-1].(*ssa.If); ok {
+					if bin, ok := ifi.Cond.(*ssa.BinOp); ok && bin.Op == token.LSS && bin.X == ia.Index {
+						if xx, name, ok := lenOrCapOf(bin.Y); ok && name == "len" && xx == ssa.Value(mk) {
+							loopOK = true
+						}
+						if stripConv(bin.Y) == ssa.Value(fn.Params[0]) {
+							loopOK = true
+						}
+					}
+				}
+			}
+		}
+	}
+	if nst == 0 || !loopOK {
+		return false
+	}
+	for _, b := range fn.Blocks {
+		if ret, ok := b.Instrs[len(b.Instrs)-1].(*ssa.Return); ok {
+			if len(ret.Results) != 1 || resolveLoad(ret.Results[0]) != ssa.Value(mk) {
+				return false
+			}
+		}
+	}
+	return true
+}
+
+// allDroppedAppendsIn: appends, in block b of fn, of the result of an
+// all-dropped maker called with the document count of the ranged segment.
+func allDroppedAppendsIn(c *Ctx, fn *ssa.Function, b *ssa.BasicBlock) int {
+	n := 0
+	for _, ins := range b.Instrs {
+		call, ok := ins.(*ssa.Call)
+		if !ok {
+			continue
+		}
+		bi, ok := call.Call.Value.(*ssa.Builtin)
+		if !ok || bi.Name() != "append" || len(call.Call.Args) != 2 {
+			continue
+		}
+		vals := varargValues(call.Call.Args[1])
+		if len(vals) != 1 {
+			continue
+		}
+		mc, ok := vals[0].(*ssa.Call)
+		if !ok || !isAllDroppedMaker(c, mc.Call.StaticCallee()) || len(mc.Call.Args) != 1 {
+			continue
+		}
+		if _, ok := numDocsOf(stripConv(mc.Call.Args[0])); ok {
+			n++
+		}
+	}
+	return n
+}
+
+// allDroppedGuard: the If tests drops.GetCardinality() == seg.footer.numDocs; returns the edge on which it holds.
+func allDroppedGuard(b *ssa.BasicBlock) *ssa.BasicBlock {
+	ifi, ok := b.Instrs[len(b.Instrs)-1].(*ssa.If)
+	if !ok {
+		return nil
+	}
+	bin, ok := ifi.Cond.(*ssa.BinOp)
+	if !ok || (bin.Op != token.EQL && bin.Op != token.NEQ) {
+		return nil
+	}
+	x, y := stripConv(bin.X), stripConv(bin.Y)
+	if _, ok := numDocsOf(x); ok {
+		x, y = y, x
+	}
+	if _, ok := numDocsOf(y); !ok {
+		return nil
+	}
+	call, ok := x.(*ssa.Call)
+	if !ok || call.Call.StaticCallee() == nil || call.Call.StaticCallee().Name() != "GetCardinality" {
+		return nil
+	}
+	if bin.Op == token.EQL {
+		return b.Succs[0]
+	}
+	return b.Succs[1]
+}
+
+func pathTakesAllDroppedEdge(blocks []*ssa.BasicBlock) bool {
+	for i, b := range blocks {
+		if e := allDroppedGuard(b); e != nil && i+1 < len(blocks) && blocks[i+1] == e {
+			return true
+		}
+	}
+	return false
+}
+
+func allDroppedGuardDominates(b *ssa.BasicBlock) bool {
+	if b == nil {
+		return false
+	}
+	for _, tb := range b.Parent().Blocks {
+		if e := allDroppedGuard(tb); e != nil && len(e.Preds) == 1 && (e == b || e.Dominates(b)) {
+			return true
+		}
+	}
+	return false
 }
